@@ -33,6 +33,8 @@ CL = "passkey-client"
 TR = "passkey-transports"
 PS = "public-suffix"
 
+from . import mirsym_engine as _e2
+
 PROPS = {}
 DEFAULT_MODULE = {"passkey-transports": "hid::verif_proofs"}
 
@@ -255,3 +257,69 @@ prop("C11",
      outside=["Client::map_rk and credProps (planned in passkey-client harnesses)", "storage of the user handle in make_credential (E2)"],
      )
 
+
+E2_TRUST = ["nightly rustc MIR pretty-printer (-Zunpretty=mir, overflow-checks on)", "/verif/mirsym parser + path executor (trace-validated against the real code on every run)", "z3 4.8.12"]
+
+prop("C07",
+     title="Failed or cancelled ceremonies leave the credential store consistent",
+     engine="mirsym",
+     engines=[_e2.engine], e2=["get_assertion", "make_credential"],
+     functions=["Authenticator::make_credential::{closure#0} (coroutine body, MIR)", "Authenticator::get_assertion::{closure#0} (coroutine body, MIR)"],
+     stubs=["every callee (store, user validation, extension processing, crypto, constructors) is an environment event with an unconstrained result"],
+     explanation="for every assignment of request flags and of Ok/Err/Pending outcomes of every call in the two ceremony bodies: at most one "
+                 "store-mutating call, of the right kind; Ok only after the store accepted it; the store's error is the returned error; nothing "
+                 "fallible after save; update before extensions and signing; lookup errors only after consent",
+     outside=["behaviour of concrete stores", "panics inside callees", "the U2F register path", "more than one Pending per suspension point"],
+     technique="symbolic path execution of rustc MIR with z3 (own encoder), native replay of counterexamples",
+     trusted=E2_TRUST,
+     )
+
+prop("C08",
+     title="Signature counters strictly increase and equal what the store holds",
+     engine="mirsym",
+     engines=[_e2.engine], e2=["get_assertion", "make_credential"],
+     functions=["Authenticator::get_assertion::{closure#0} (MIR)", "Authenticator::make_credential::{closure#0} (MIR)"],
+     stubs=["every callee is an environment event"],
+     explanation="for all 2^32 counter values (bit-vector query): the increment cannot overflow; the value written with update_credential and the value "
+                 "reported in the authenticator data are the same term old+1; without a counter no update_credential call exists on any path; "
+                 "registration stores Some(0) iff configured and reports that term",
+     outside=["monotonicity over histories is one inductive step (arbitrary stored counter, one assertion)", "the byte encoding of the counter (C12)"],
+     technique="symbolic path execution of rustc MIR + z3 bit-vector query on the counter arithmetic, native replay",
+     trusted=E2_TRUST,
+     )
+
+prop("C18",
+     title="The sealed CTAP2 API trait behaves exactly like the direct authenticator methods",
+     engine="mirsym",
+     engines=[_e2.engine], e2=["forwarding"],
+     functions=["<Authenticator as Ctap2Api>::{get_info, make_credential, get_assertion}::{closure#0} (async blocks, MIR)"],
+     stubs=["the direct methods are environment events"],
+     explanation="each forwarding body makes exactly one call, to the inherent method of the same name (not to itself), with the receiver and request it "
+                 "was given, and returns that call's awaited value unchanged; no other store / user-validation effect",
+     outside=["the behaviour of the direct methods themselves (C02-C08)"],
+     technique="symbolic path execution of rustc MIR (call-target and data-flow check of the three forwarding bodies), native replay of non-termination",
+     trusted=E2_TRUST,
+     )
+
+CS = "credential_store::verif_proofs"
+prop("C05",
+     title="Credentials are used only for their own RP and as the allow/exclude lists say",
+     engine="mirsym",
+     engines=[_e2.engine], e2=["get_assertion", "make_credential"],
+     functions=["Authenticator::get_assertion::{closure#0} (MIR)", "Authenticator::make_credential::{closure#0} (MIR)"],
+     stubs=["every callee is an environment event"],
+     explanation="authenticator side: the lookup receives the request's rp_id and its allow list through the emptiness filter; the exclude lookup receives "
+                 "rp.id and the exclude list; CredentialExcluded exactly when the lookup returned a non-empty Ok, with no store mutation",
+     outside=["the shipped stores' own lookups: Option<Passkey>/MemoryStore clone and drop CoseKey (ciborium Value recursion) - CBMC does not finish (measured), "
+              "and closures over iterator adaptors are beyond the MIR executor's models", "lock wrappers"],
+     technique="symbolic path execution of rustc MIR (argument provenance of the store calls), native replay",
+     trusted=E2_TRUST,
+     )
+
+for _p, _e in (("C04", ["get_assertion", "make_credential"]), ("C11", ["get_assertion", "make_credential"]), ("C09", ["make_credential"])):
+    PROPS[_p]["engines"] = [_e2.engine]
+    PROPS[_p]["e2"] = _e
+    PROPS[_p]["trusted"] = E2_TRUST
+    PROPS[_p]["functions"] = PROPS[_p]["functions"] + ["E2: Authenticator::{make_credential,get_assertion}::{closure#0} (MIR)"]
+    PROPS[_p]["technique"] = "Kani/CBMC bounded model checking (kernels) + symbolic path execution of rustc MIR with z3 (ceremony ordering / data flow)"
+PROPS["C04"]["outside"] = ["client-level mapping of userVerification to uv", "more than one Pending per suspension point"]
